@@ -76,6 +76,8 @@ def run(ck, module=("Properties_C01", "Properties_C01b", "Properties_SrcIO"), th
     if corr and not ck.violations:
         last_corr["broken"] = "correspondence enc/dec/ver model vs implementation"
         ck.violation("correspondence model/implementation no longer checks (%d cases) but the round trip held on every explored input" % corr, last_corr, found_input=False)
+    # the same encryptions, decryptions and verifications on the TRANSLATED SOURCE ONLY, pipeline and threads included
+    report_whole_source(ck, whole_source_runs(ck, lines + l2, dict(impl, **impl2)), "C01")
     if big:
         production_runs(ck)
     if not finish:
